@@ -74,6 +74,8 @@ def inspect(script, impl):
     K = kinds()
     bad = []
     tainted = False
+    if len(script) > 20 and script[-1] == "bus digest" and all(l.split()[1] in ("new", "mw", "mr", "digest") for l in script):
+        bad += window_inspect(script, impl)
     for i, (line, r) in enumerate(zip(script, impl)):
         t = line.split()
         if t[1] == "new":
@@ -153,6 +155,68 @@ def exhaustive(rng, tier):
     return scripts
 
 
+# documented fields of the bit-field register 0x1DA (dma.md: SRC_SPACE 0-3, DST_SPACE 4-7, DWM 10); its other bits are
+# not per-channel in the C++ (one backing word for all channels) and are not documented fields, so they are left out
+WINDOW_FIELD_MASK = {0x1DA: 0x04FF}
+
+
+def window_sweep(rng, tier):
+    """The DMA channel window gives each of the eight channels its own copy of every window register: for every
+    window offset and every single-bit value, write it on channel A only and read all eight channels before and after
+    (`#win` lines are judged on the implementation by `inspect`: channels other than A read what they read before)."""
+    scripts = []
+    K = kinds()
+    for off in range(0x1C0, 0x1DE, 2):
+        mask = WINDOW_FIELD_MASK.get(off, K[off][1] if K[off][1] is not None else 0xFFFF)
+        bits = range(16) if tier != "quick" else sorted({0, 15, 7, rng.below(16), rng.below(16), 3 + rng.below(5), 8 + rng.below(4)})
+        for k in bits:
+            a = rng.below(8)
+            v = 1 << k
+            if not v & mask:
+                continue            # not a documented bit of this register (such bits share one backing word)
+            s = ["bus new own"]
+            # give the other channels distinct, non-zero contents first (so that a shared backing word shows)
+            pre = rng.bits(16)
+            for c in range(8):
+                if c != a and rng.chance(1, 2):
+                    s += ["bus mw 1be %x" % c, "bus mw %x %x" % (off, (pre ^ (c * 0x1111)) & ~v & mask)]
+            for c in range(8):
+                s += ["bus mw 1be %x" % c, "bus mr %x" % off]
+            s += ["bus mw 1be %x" % a, "bus mw %x %x" % (off, v)]
+            for c in range(8):
+                s += ["bus mw 1be %x" % c, "bus mr %x" % off]
+            s.append("bus digest")
+            scripts.append(s)
+    return scripts
+
+
+def window_inspect(script, impl):
+    """Direct evaluation for `window_sweep` scripts: two read sweeps over the eight channels around one write."""
+    sel, reads, wrote = None, [], None
+    phase = 0
+    before, after = {}, {}
+    for i, (line, r) in enumerate(zip(script, impl)):
+        t = line.split()
+        if r.split(" ")[0] in vlib.ABORTS:
+            return []
+        if t[1] == "mw" and t[2] == "1be":
+            sel = int(t[3], 16)
+        elif t[1] == "mr" and sel is not None:
+            (before if phase == 0 and wrote is None else after)[sel] = r.split(" ")[0]
+        elif t[1] == "mw" and len(before) == 8 and wrote is None:
+            wrote = (sel, line, i)
+    if wrote is None or len(before) != 8 or len(after) != 8:
+        return []
+    K = kinds()
+    off = int(wrote[1].split()[2], 16)
+    mask = WINDOW_FIELD_MASK.get(off, K[off][1] if K[off][1] is not None else 0xFFFF)
+    for c in range(8):
+        if c != wrote[0] and int(before[c], 16) & mask != int(after[c], 16) & mask:
+            return [("DMA channel window: `%s` on channel %d changed what channel %d reads at the same offset (%s -> %s): "
+                     "the channels do not have independent copies" % (wrote[1], wrote[0], c, before[c], after[c]), len(script) - 1)]
+    return []
+
+
 CFG_OFFS = [0x20, 0x30]
 INTERESTING = ([0x1A, 0x20, 0x22, 0x24, 0x26, 0x28, 0x2A, 0x2C, 0x30, 0x32, 0x34, 0x36, 0x38, 0x3A] +
                list(range(0xC0, 0xDA, 2)) + list(range(0xE0, 0xF4, 2)) +
@@ -179,7 +243,7 @@ def pick_val(rng, off):
     if off == 0x1BE:
         return rng.below(8) if not rng.chance(1, 40) else rng.choice([8, 0xFFFF, 0x100])
     if off == 0x1DA:
-        return rng.choice([0, 7]) | (rng.choice([0, 7]) << 4) | (rng.below(2) << 10) | (rng.bits(16) & 0xFB00 if rng.chance(1, 4) else 0)
+        return rng.choice([0, 7]) | (rng.choice([0, 7, 8, 0xF]) << 4) | (rng.below(2) << 10) | (rng.bits(16) & 0xFB00 if rng.chance(1, 4) else 0)
     if off in (0x1C8, 0x1CA, 0x1CC):
         return rng.below(5) if not rng.chance(1, 20) else rng.choice([0xFFFF, 0x100])
     if off in (0x1C2, 0x1C6):
@@ -338,7 +402,7 @@ def judge(pair, script, impl, model):
 
 def explore(rng, tier, replay=None):
     kinds()
-    scripts = exhaustive(rng, tier)
+    scripts = exhaustive(rng, tier) + window_sweep(rng, tier)
     nh = 600 if tier == "quick" else 12000
     for _ in range(nh):
         scripts.append(history(rng, 10 + rng.below(60)))
